@@ -269,10 +269,13 @@ pub fn c12(seed: u64, n: usize) {
             let strategies = k.kws.inverse_continuing(&land, &from);
             let mut exists = false;
             for s in strategies.iter().take(8) {
-                let alone = (0..2).all(|_| planner.plan(s, &land, steps.clone(), &park).is_ok());
+                // the plan started AT this branch must land on this very branch (not on another one reached from it)
+                let lands_here = |path: &Vec<rs_opw_kinematics::cartesian::AnnotatedJoints>| path.iter()
+                    .find(|w| w.flags.bits() & 16 != 0).map_or(false, |w| (0..6).all(|kk| (w.joints[kk] - s[kk]).abs() < 1e-9));
+                let alone = (0..2).all(|_| planner.plan(s, &land, steps.clone(), &park).map_or(false, |p| lands_here(&p)));
                 if !alone { continue; }
                 let stop = AtomicBool::new(false);
-                let reach = (0..2).all(|_| planner.rrt.plan_rrt(&from, s, &k.kws, &stop).is_ok());
+                let reach = (0..3).all(|_| planner.rrt.plan_rrt(&from, s, &k.kws, &stop).is_ok());
                 if reach { exists = true; break; }
             }
             let retries: Vec<bool> = (0..3).map(|_| in_pool2(pool, || planner.plan(&from, &land, steps.clone(), &park).is_ok())).collect();
